@@ -17,7 +17,7 @@ GROUPS = [
          bounded="queue geometry maxlen=6 (loops fully unwound, all (pos, n), symbolic flags)"),
     dict(name="ep_speech_count", harness=H, enforce="ep_speech_count", defines=["EP_SYMBOLIC_MAXLEN", "EP_FS=4"], replace=["ep_empty", "ep_full"],
          loop_contracts=True, loops=["ep_speech_count.full", "ep_speech_count.partial"], min_loop_steps=2, allow_no_body=NOBODY),
-    dict(name="ep_linearize", harness=H, enforce="ep_linearize", defines=["EP_MAXLEN=3", "EP_FS=2"], allow_no_body=NOBODY, min_postconditions=3, unwind=14),
+    dict(name="ep_linearize", tiers=("probe",), harness=H, enforce="ep_linearize", defines=["EP_MAXLEN=3", "EP_FS=2"], allow_no_body=NOBODY, min_postconditions=3, unwind=14),
     dict(name="endpointer_process", harness=H, enforce="endpointer_process", defines=GEO,
          replace=["vad_classify", "ep_push", "ep_pop", "ep_speech_count", "ep_full"], allow_no_body=NOBODY, min_postconditions=12,
          backends=[["--sat-solver", "cadical"]], timeout={"quick": 900, "thorough": 1800}),
